@@ -1408,6 +1408,7 @@ func ruleCNT1(c *Ctx) []Ob {
 		return g != nil && c.declared(g) == f
 	}
 	n := 0
+	var cntFns []*ssa.Function
 	for _, fn := range c.LibFuncs {
 		if c.pkgRel(fn) != "" {
 			continue
@@ -1465,6 +1466,7 @@ func ruleCNT1(c *Ctx) []Ob {
 		if !answers(fn, 0) {
 			continue
 		}
+		cntFns = append(cntFns, fn)
 		// every non-constant origin (through phis) of v is `x - GetSkip()`
 		var afterSkip func(v ssa.Value, seen map[ssa.Value]bool) bool
 		afterSkip = func(v ssa.Value, seen map[ssa.Value]bool) bool {
@@ -1520,6 +1522,30 @@ func ruleCNT1(c *Ctx) []Ob {
 					o.add(VIOLATED, key, relPath(c, bo.Pos()), "the limit is compared with the collection size before the skip is subtracted: Count(q) = min(limit, max(size - skip, 0)), so on the last partial page Count exceeds len(FindAll)")
 				}
 			}
+		}
+	}
+	// second obligation: the number answered is never negative. Every value the function returns
+	// as its count is, on the way it takes to the return, a constant that is not negative, a
+	// len(), or a value a condition on that way found to be at least zero. A subtraction of the
+	// skip AFTER the clamp at zero answers size - skip < 0 for a skip past the end, where FindAll
+	// answers nothing.
+	for _, fn := range cntFns {
+		bad := ""
+		for _, ret := range returnsOf(fn) {
+			rv, ok := returnedValue(ret, 0)
+			if !ok {
+				continue
+			}
+			if !c.nonNegAt(fn, rv, ret.Block(), nil, 0) {
+				bad = relPath(c, ret.Pos())
+			}
+		}
+		n++
+		key := c.fname(fn) + "/the count answered from the counter is never negative"
+		if bad != "" {
+			o.add(VIOLATED, key, bad, "the count returned here is not known to be at least zero: it is neither a constant, nor a length, nor a value a condition on the way found non-negative (the clamp at zero must come after the last subtraction: size - skip is negative for a skip past the end, where FindAll returns nothing and Count must answer 0)")
+		} else {
+			o.add(OK, key, relPath(c, fn.Pos()), "every returned count is a non-negative constant, a length, or a value found non-negative by a condition on the way to the return")
 		}
 	}
 	if n == 0 {
@@ -2840,6 +2866,16 @@ func ruleOVF1(c *Ctx) []Ob {
 								for _, s := range storesTo(al) {
 									if tainted[s] {
 										mark(x)
+									}
+								}
+							}
+							// a variable captured by a function literal
+							if fv, ok := x.X.(*ssa.FreeVar); ok {
+								if al, ok := freeVarBinding(fv).(*ssa.Alloc); ok {
+									for _, s := range storesTo(al) {
+										if tainted[s] {
+											mark(x)
+										}
 									}
 								}
 							}
@@ -6867,6 +6903,32 @@ func ruleREC1(c *Ctx) []Ob {
 				}
 			}
 			if !typeDriven || valueNarrowed {
+				return
+			}
+			// stripping wrappers - the Elem() of the own type parameter handed on, in a function that
+			// looks at no struct field - is the loop `for t.Kind() == Ptr { t = t.Elem() }` written as
+			// a recursion: it follows one chain of pointer types, not the fields of structs
+			strips := true
+			for i, p := range fn.Params {
+				if i >= len(args) || !isRT(p.Type()) || args[i] == ssa.Value(p) {
+					continue
+				}
+				for _, og := range origins(args[i]) {
+					el, ok := og.(*ssa.Call)
+					if !ok || !el.Call.IsInvoke() || el.Call.Method == nil || el.Call.Method.Name() != "Elem" || el.Call.Value != ssa.Value(p) {
+						strips = false
+					}
+				}
+			}
+			allCalls(fn, func(fc ssa.CallInstruction) {
+				if cc := fc.Common(); cc.IsInvoke() && cc.Method != nil {
+					switch cc.Method.Name() {
+					case "Field", "NumField", "FieldByName", "FieldByIndex":
+						strips = false
+					}
+				}
+			})
+			if strips {
 				return
 			}
 			n++
